@@ -47,3 +47,15 @@ def load_replay(ctx):
     if not ctx.replay_file:
         return None
     return json.load(open(ctx.replay_file)).get("replay", {})
+
+
+def stage(ctx, fn, *a):
+    """Run one driver+validation stage. A tool error (e.g. a TLC 32-bit overflow on absurd values produced by
+    broken code) in a LATER stage must not hide violations already established by an earlier one."""
+    try:
+        return fn(*a)
+    except vlib.ToolError as e:
+        if ctx.violations:
+            ctx.note("stage aborted by a tool error after violations were found: %s" % str(e)[:300])
+            return None
+        raise
